@@ -1,4 +1,4 @@
-// group `wasm_submsg`: WasmKeeper::execute_submsg against the oracle of reply   (C02, C03, C04, C05)
+// group `wasm_exec`: WasmKeeper::{execute_wasm, process_wasm_msg_instantiate, send}, Wasm::{execute, sudo}   (C04, C05, C11, C12)
 //@ include prelude/macros.rs
 use vstd::prelude::*;
 use vstd::std_specs::iter::IteratorSpec;
@@ -14,8 +14,12 @@ verus! {
 //@ include prelude/wasm_traits.rs
 //@ include contracts/wasm_types.rs
 //@ include spec/wasm_sem.rs
-//@ include_stubs contracts/transactional_only.rs
-//@ include_stubs contracts/wasm_oracle_reply.rs
-//@ include contracts/wasm_submsg.rs
+//@ include spec/wasm_resp.rs
+//@ include spec/wasm_exec.rs
+//@ include_stubs contracts/wasm_stub_submsg.rs
+//@ include_stubs contracts/wasm_reply.rs
+//@ include_stubs contracts/wasm_stub_calls.rs
+//@ include_stubs contracts/wasm_stub_registry.rs
+//@ include contracts/wasm_exec.rs
 } // verus!
 fn main() {}
